@@ -251,8 +251,10 @@ func (s *scripted) TLSDial(network, addr string, config *tls.Config) (*tls.Conn,
 
 type errReader struct{}
 
-func (errReader) Read([]byte) (int, error) { return 0, errors.New("connection reset while reading body") }
-func (errReader) Close() error             { return nil }
+func (errReader) Read([]byte) (int, error) {
+	return 0, errors.New("connection reset while reading body")
+}
+func (errReader) Close() error { return nil }
 
 func (s *scripted) Get(u string) (*http.Response, error) {
 	s.calls = append(s.calls, "get:"+c.X(u))
